@@ -251,7 +251,7 @@ package main
 
 //@ func computePkgCache
 //@   property C07
-//@   hooks cachemiss
+//@   hooks cachemiss parse
 //@   skip safety
 //@ end
 
@@ -511,4 +511,249 @@ package main
 //@   skip safety call-requires
 //@   ensures @print-builtins-are-redirected: old(dyntypeis(node, *ast.CallExpr) && dyntypeis(node.(*ast.CallExpr).Fun, *ast.Ident) && (node.(*ast.CallExpr).Fun.(*ast.Ident).Name == "print" || node.(*ast.CallExpr).Fun.(*ast.Ident).Name == "println")) ==> node.(*ast.CallExpr).Fun.(*ast.Ident).Name == "hidePrint"
 //@   ensures @other-calls-are-kept: old(dyntypeis(node, *ast.CallExpr) && dyntypeis(node.(*ast.CallExpr).Fun, *ast.Ident) && node.(*ast.CallExpr).Fun.(*ast.Ident).Name != "print" && node.(*ast.CallExpr).Fun.(*ast.Ident).Name != "println") ==> node.(*ast.CallExpr).Fun.(*ast.Ident).Name == old(node.(*ast.CallExpr).Fun.(*ast.Ident).Name)
+//@ end
+
+// ---- C04: garble reverse streams every line through the replacer ----
+
+//@ ghost rcIn string
+//@ ghost rcSrc string
+//@ ghost rcWant string
+//@ ghost rcOut string
+//@ ghost rcChanged bool
+//@ ghost rcDone bool
+//@ ghost rcEOF bool
+//@ ghost rcWriteFailed bool
+
+//@ hookset revstream
+//@ hook after bufio.NewReader(rd) (b)
+//@   rcIn = ""
+//@   rcSrc = ""
+//@   rcWant = ""
+//@   rcOut = ""
+//@   rcDone = false
+//@   rcEOF = false
+//@   rcWriteFailed = false
+//@ hook after (*bufio.Reader).ReadString(b, delim) (line, err)
+//@   rcIn = rcIn + line
+//@   if err == io.EOF { rcEOF = true }
+//@   if err != nil || err == io.EOF { rcDone = true }
+//@ hook after (*strings.Replacer).Replace(r, s) (out)
+//@   rcSrc = rcSrc + s
+//@   rcWant = rcWant + out
+//@   if out != s { rcChanged = true }
+//@ hook after io.WriteString(w, s) (n, err)
+//@   if err == nil { rcOut = rcOut + s }
+//@   if err != nil { rcWriteFailed = true }
+//@ end
+
+//@ func reverseContent
+//@   property C04
+//@   hooks revstream
+//@   assigns ghost rcIn, ghost rcSrc, ghost rcWant, ghost rcOut, ghost rcChanged, ghost rcDone, ghost rcEOF, ghost rcWriteFailed
+//@   ensures @end-of-input-is-success: rcEOF && !rcWriteFailed ==> r1 == nil
+//@   ensures @every-line-read-goes-through-the-replacer-in-order: r1 == nil ==> rcSrc == rcIn
+//@   ensures @output-is-the-replaced-lines-in-order: r1 == nil ==> rcOut == rcWant
+//@   ensures @input-is-read-to-the-end: r1 == nil ==> rcDone
+//@   ensures @modified-iff-some-line-changed: rcChanged == (old(rcChanged) || r0)
+//@   loop 0
+//@     invariant rcSrc == rcIn && rcOut == rcWant && !rcDone && !rcEOF && !rcWriteFailed
+//@     invariant rcChanged == (entry(rcChanged) || modified)
+//@ end
+
+//@ func commandReverse
+//@   property C04 C13
+//@   spec paths.smt2
+//@   hooks revstream revkey
+//@   skip safety
+//@   requires !anySelected
+//@   unclaimed hashWithPackage/requires because the names come from go list output and from parsed declarations; that those are non-empty is an invariant of go/parser and cmd/go, not of this function
+//@   unclaimed hashWithStruct/requires because the field objects come from go/types and the content ID from the shared cache written by the parent process
+//@   case_calls *ast.FuncDecl: addHashedWithPackage
+//@   case_calls *ast.TypeSpec: addHashedWithPackage
+//@   case_calls *ast.Field: ObjectOf, IsField, Origin, hashWithStruct, append, panic
+//@   case_calls *ast.ValueSpec: addHashedWithPackage
+//@   ensures @exit-status-tells-whether-anything-was-replaced: r0 == nil && !old(rcChanged) ==> rcChanged
+//@   loop 6
+//@     invariant rcChanged == (entry(rcChanged) || anyModified)
+//@ end
+
+//@ ghost lastRead string
+
+//@ hookset readsrc
+//@ hook after os.ReadFile(name) (data, err)
+//@   if err == nil { lastRead = str(data) }
+//@ end
+
+//@ func reflectMainPrePatch
+//@   property C04 C13 C01
+//@   hooks readsrc
+//@   assigns ghost lastRead
+//@   ensures @nothing-when-already-patched: old(reflectPatchFile) != "" ==> r0 == "" && r1 == nil
+//@   ensures @original-source-is-kept-as-a-prefix: r1 == nil && r0 != "" ==> strings.HasPrefix(r0, lastRead)
+//@ end
+
+// ---- C04/C13: the trees that map and reverse inspect are the listed files, in order, unpatched ----
+
+//@ ghost parsedN int
+//@ ghost parsedAt map[int]string
+//@ ghost parsedTree map[int]ref
+//@ ghost parsedPatched map[int]bool
+
+//@ hookset parse
+//@ hook after go/parser.ParseFile(fs, filename, src, mode) (f, err)
+//@   if err == nil { parsedAt[parsedN] = filename }
+//@   if err == nil { parsedTree[parsedN] = f }
+//@   if err == nil { parsedPatched[parsedN] = !isnil(src) }
+//@   if err == nil { parsedN = parsedN + 1 }
+//@ end
+
+//@ func abiNamePatch
+//@   property C04 C13
+//@   hooks readsrc
+//@   assigns ghost lastRead
+//@   ensures @error-or-source: r1 != nil ==> r0 == ""
+//@ end
+
+//@ func parseFiles
+//@   property C04 C13
+//@   hooks parse
+//@   skip safety
+//@   requires parsedN == 0
+//@   assigns reflectPatchFile, ghost parsedN, ghost parsedAt, ghost parsedTree, ghost parsedPatched, ghost lastRead
+//@   ensures @one-tree-per-listed-file: err == nil ==> len(files) == len(paths) && parsedN == len(paths)
+//@   ensures @trees-in-listed-order: err == nil ==> forall k int :: 0 <= k && k < len(paths) ==> files[k] == parsedTree[k] && parsedAt[k] == ite(filepath.IsAbs(paths[k]), paths[k], filepath.Join(dir, paths[k]))
+//@   ensures @sources-unpatched-outside-the-build: err == nil && !mainPatch && lpkg.ImportPath != "internal/abi" ==> forall k int :: 0 <= k && k < len(paths) ==> !parsedPatched[k]
+//@   loop 0
+//@     invariant len(files) == _i && parsedN == _i && err == nil
+//@     invariant forall k int :: 0 <= k && k < _i ==> files[k] == parsedTree[k] && parsedAt[k] == ite(filepath.IsAbs(paths[k]), paths[k], filepath.Join(dir, paths[k]))
+//@     invariant !mainPatch && lpkg.ImportPath != "internal/abi" ==> forall k int :: 0 <= k && k < _i ==> !parsedPatched[k]
+//@ end
+
+//@ hookset parse
+//@ hook before mvdan.cc/garble.parseFiles(lp, dir, paths, mainPatch)
+//@   parsedN = 0
+//@ end
+
+//@ func importerForPkg
+//@   property C04 C13
+//@   requires lpkg != nil
+//@   skip safety
+//@   assigns listedPackage.allDeps, listedPackages.entries
+//@ end
+
+//@ func typecheck
+//@   property C04 C13
+//@   assigns nothing
+//@   skip safety
+//@ end
+
+//@ func computeFieldToStruct
+//@   property C04 C13
+//@   assigns nothing
+//@   skip safety
+//@ end
+
+//@ func transformerForListedPackage
+//@   property C04 C13
+//@   hooks parse
+//@   requires lpkg != nil
+//@   assigns reflectPatchFile, listedPackage.allDeps, listedPackages.entries, ghost parsedN, ghost parsedAt, ghost parsedTree, ghost parsedPatched, ghost lastRead
+//@   ensures @trees-are-the-listed-files-in-order: r2 == nil ==> len(r1) == len(lpkg.CompiledGoFiles) && forall k int :: 0 <= k && k < len(r1) ==> r1[k] == parsedTree[k] && parsedAt[k] == ite(filepath.IsAbs(lpkg.CompiledGoFiles[k]), lpkg.CompiledGoFiles[k], filepath.Join(lpkg.Dir, lpkg.CompiledGoFiles[k]))
+//@   ensures @sources-are-the-files-on-disk: r2 == nil && lpkg.ImportPath != "internal/abi" ==> forall k int :: 0 <= k && k < len(r1) ==> !parsedPatched[k]
+//@   ensures @transformer-is-for-this-package: r2 == nil ==> r0 != nil && r0.curPkg == lpkg
+//@ end
+
+//@ hookset revkey
+//@ hook after fmt.Sprintf(format, args...) (r)
+//@   if format == "%s:%d" && goFile != "" { assert("[C04] reverse-key-names-the-file-the-tree-was-parsed-from", filepath.Base(goFile) == filepath.Base(parsedAt[i])) }
+//@   if format == "%s:%d" { assert("[C04] reverse-key-uses-the-base-name-like-the-build", goFile == filepath.Base(goFile)) }
+//@ hook before mvdan.cc/garble.hashWithPackage(pkg, name)
+//@   assert("reverse-hashes-with-the-package-being-listed", pkg == lpkg)
+//@ end
+
+// ---- C04/C02: the build hashes call positions under the same key ----
+
+//@ ghost posFileName string
+
+//@ hookset fwdpos
+//@ hook after (*go/token.File).Name(f) (r)
+//@   posFileName = r
+//@ hook before mvdan.cc/garble.hashWithPackage(pkg, name)
+//@   assert("forward-key-is-hashed-with-the-package-being-built", pkg == lpkg)
+//@   assert("forward-key-is-base-name-colon-original-offset", name == fmt.Sprintf("%s:%d", filepath.Base(posFileName), origOffset))
+//@ end
+
+//@ func printFile
+//@   property C04 C02
+//@   spec paths.smt2
+//@   hooks fwdpos
+//@   skip safety
+//@   unclaimed hashWithPackage/requires because non-emptiness of the key is immaterial here
+//@ end
+
+// ---- C13/C01: one naming decision, used by the build and by garble map ----
+
+//@ ghost lastListed *listedPackage
+//@ ghost lastListedErr bool
+
+//@ hookset naming
+//@ hook after mvdan.cc/garble.listPackage(from, path) (lp, err)
+//@   lastListed = lp
+//@   lastListedErr = err != nil
+//@ end
+
+//@ func listPackage
+//@   property C13 C01 C14
+//@   requires from != nil
+//@   skip safety
+//@   assigns listedPackage.allDeps, listedPackages.entries
+//@   ensures @own-path-is-the-package-itself: old(path) == old(from.ImportPath) ==> r0 == from && r1 == nil
+//@   ensures @package-or-error: r1 != nil ==> r0 == nil
+//@ end
+
+//@ func isTestSignature
+//@   property C13 C01
+//@   assigns nothing
+//@   skip safety
+//@ end
+
+//@ func namedType
+//@   property C13 C01
+//@   assigns nothing
+//@   skip safety
+//@ end
+
+//@ func (*transformer).obfuscatedObjectName
+//@   property C13 C01 C02
+//@   hooks naming
+//@   requires tf != nil && tf.curPkg != nil
+//@   skip safety
+//@   unclaimed hashWithPackage/requires because that go/types never hands out an object with an empty name, and that a listed package is never nil when no error is reported, are facts about go/types and the decoded package list
+//@   unclaimed hashWithStruct/requires because the field comes from go/types and the content ID from the shared cache written by the parent process
+//@   assigns sumBuffer, b64NameBuffer, listedPackage.allDeps, listedPackages.entries, ghost wr, ghost lastListed, ghost lastListedErr
+//@   ensures @universe-objects-keep-their-names: isnil(obj.Pkg()) ==> !r1
+//@   ensures @packages-outside-the-selection-keep-their-names: !isnil(obj.Pkg()) && r1 ==> lastListed != nil && lastListed.ToObfuscate
+//@   ensures @exported-methods-keep-their-names: r1 && dyntypeis(obj, *types.Func) ==> !(obj.Exported() && !isnil(obj.(*types.Func).Signature().Recv()))
+//@   ensures @entry-points-keep-their-names: r1 && dyntypeis(obj, *types.Func) ==> obj.Name() != "main" && obj.Name() != "init" && obj.Name() != "TestMain"
+//@   ensures @only-vars-types-funcs-are-renamed: r1 ==> dyntypeis(obj, *types.Var) || dyntypeis(obj, *types.TypeName) || dyntypeis(obj, *types.Func)
+//@   ensures @fields-are-hashed-with-their-struct: r1 && dyntypeis(obj, *types.Var) && obj.(*types.Var).IsField() ==> r0 == old(hashWithStruct(tf.fieldToStruct[obj.(*types.Var).Origin()], obj.(*types.Var).Origin()))
+//@   ensures @everything-else-is-hashed-with-its-own-package: r1 && !(dyntypeis(obj, *types.Var) && obj.(*types.Var).IsField()) ==> r0 == old(hashWithPackage(now(lastListed), obj.Name()))
+//@ end
+
+//@ hookset mapnames
+//@ hook before (*mvdan.cc/garble.transformer).obfuscatedObjectName(t, o)
+//@   assert("map-asks-the-transformer-built-for-the-package-being-listed", t == tf && t.curPkg == lpkg)
+//@ hook before (*mvdan.cc/garble.listedPackage).obfuscatedImportPath(p)
+//@   assert("map-reports-the-path-of-the-package-being-listed", p == lpkg && lpkg.ToObfuscate)
+//@ hook before mvdan.cc/garble.transformerForListedPackage(p)
+//@   assert("map-only-describes-packages-selected-for-obfuscation", p.ToObfuscate)
+//@ end
+
+//@ func commandMap
+//@   property C13
+//@   hooks mapnames parse
+//@   requires !anySelected
+//@   skip safety
+//@   unclaimed obfuscatedObjectName/requires because the transformer and its package are non-nil whenever transformerForListedPackage reports no error; the remaining precondition is about go/types
+//@   unclaimed obfuscatedImportPath/requires because import paths of listed packages are non-empty by construction of go list
 //@ end
